@@ -33,16 +33,26 @@ def sh(cmd, cwd=None, env=None, timeout=None, check=True):
 # --------------------------------------------------------------------------- Go
 
 def go_sum():
-    """The harness module uses /repo's go.sum (every module it needs is required by /repo)."""
-    src = "/repo/go.sum"
-    dst = os.path.join(HARNESS, "go.sum")
-    if not os.path.exists(dst) or open(src).read() != open(dst).read():
-        extra = ""
-        ex = os.path.join(HARNESS, "go.sum.extra")
-        if os.path.exists(ex):
-            extra = open(ex).read()
+    """The harness module mirrors /repo's go.mod (same requires, replaces and excludes, so that module
+    resolution picks exactly the versions the repository builds with and that are in the module cache)
+    and uses /repo's go.sum."""
+    src = open("/repo/go.mod").read()
+    body = re.sub(r"^module .*$", "", src, count=1, flags=re.M)
+    body = re.sub(r"^go [0-9.]+$", "", body, count=1, flags=re.M)
+    body = re.sub(r"^toolchain .*$", "", body, flags=re.M)
+    mod = ("module verif/harness\n\ngo 1.23\n\n" + body.strip() + "\n\n"
+           "require (\n\tseata.apache.org/seata-go v0.0.0\n)\n\n"
+           "replace seata.apache.org/seata-go => /repo\n")
+    dst = os.path.join(HARNESS, "go.mod")
+    if not os.path.exists(dst) or open(dst).read() != mod:
         with open(dst, "w") as f:
-            f.write(open(src).read() + extra)
+            f.write(mod)
+    sums = open("/repo/go.sum").read()
+    dsts = os.path.join(HARNESS, "go.sum")
+    have = open(dsts).read() if os.path.exists(dsts) else ""
+    if not set(sums.splitlines()) <= set(have.splitlines()):
+        with open(dsts, "w") as f:
+            f.write(sums)
 
 
 def go_build(name, race=False):
@@ -111,10 +121,10 @@ def run_tlc(module, cfg, workdir, workers=1, env=None, timeout=1800, extra=None,
     return res
 
 
-def mc(module, cfg, workdir, workers=8, timeout=1800, heap=None):
+def mc(module, cfg, workdir, workers=8, timeout=1800, heap=None, env=None):
     """Exhaustive design check; a TLC counterexample on the design alone is inconclusive for the
     code (DESIGN.md §2 verdict rule) but it means the specification is broken, so it stops the check."""
-    r = run_tlc(module, cfg, workdir, workers=workers, timeout=timeout, heap=heap)
+    r = run_tlc(module, cfg, workdir, workers=workers, timeout=timeout, heap=heap, env=env)
     if not r["ok"]:
         raise Inconclusive("design check %s/%s did not pass:\n%s" % (module, cfg, r["out"][-3000:]))
     log("[mc] %s %s: %d generated, %d distinct, depth %s, %.1fs" % (
